@@ -416,6 +416,8 @@ pub struct Ctx {
     pub hang: AtomicBool,
     /// VERIF_SURVEY=1: do not stop at failures, collect them by signature (triage aid, never used by registered checks)
     pub survey: Option<Mutex<BTreeMap<String, (u64, String)>>>,
+    /// stages that could not be carried out (recorded in the evidence, never a verdict)
+    pub notes: Mutex<Vec<String>>,
 }
 
 fn mix(seed: u64, parts: &[&str], n: u64) -> [u8; 32] {
@@ -454,9 +456,23 @@ impl Ctx {
             exhaustive_parts: Mutex::new(vec![]),
             hang: AtomicBool::new(false),
             survey: if std::env::var("VERIF_SURVEY").is_ok() { Some(Mutex::new(BTreeMap::new())) } else { None },
+            notes: Mutex::new(vec![]),
         }
     }
 
+    pub fn note_inconclusive(&self, s: &str) {
+        eprintln!("[{}] note: {}", self.prop, s);
+        self.notes.lock().unwrap().push(s.to_string());
+    }
+    pub fn push_violation(&self, sub: &str, case: J, rendered: String, msg: String) {
+        self.violations.lock().unwrap().push(Violation { sub: sub.to_string(), case, rendered, msg, seed: self.seed });
+    }
+    pub fn add_section(&self, sec: J) {
+        self.sections.lock().unwrap().push(sec);
+    }
+    pub fn add_evaluations(&self, n: u64) {
+        self.total.lock().unwrap().evaluations += n;
+    }
     pub fn rule(&self, s: &str) {
         self.rule.lock().unwrap().push(s.to_string());
     }
@@ -758,6 +774,7 @@ impl Ctx {
                 "sections": *self.sections.lock().unwrap(),
             },
             "assumptions": *self.assumptions.lock().unwrap(),
+            "notes": *self.notes.lock().unwrap(),
         });
         let dir = format!("{}/evidence", VERIF_DIR);
         let _ = std::fs::create_dir_all(&dir);
